@@ -621,11 +621,26 @@ impl Session {
             )
         })?;
 
-        // Commit RDF store pending operations
-        #[cfg(feature = "rdf")]
-        self.rdf_store.commit_tx(tx_id);
+        match self.tx_manager.commit(tx_id) {
+            Ok(commit_epoch) => {
+                // Publish the versions this transaction created: they become visible
+                // from the commit epoch on, never to snapshots taken earlier
+                self.store.finalize_versions(tx_id, commit_epoch);
 
-        self.tx_manager.commit(tx_id).map(|_| ())
+                // Commit RDF store pending operations
+                #[cfg(feature = "rdf")]
+                self.rdf_store.commit_tx(tx_id);
+
+                Ok(())
+            }
+            Err(e) => {
+                // A refused commit leaves nothing behind
+                self.store.discard_uncommitted_versions(tx_id);
+                #[cfg(feature = "rdf")]
+                self.rdf_store.rollback_tx(tx_id);
+                Err(e)
+            }
+        }
     }
 
     /// Aborts the current transaction.
@@ -705,14 +720,28 @@ impl Session {
         }
     }
 
+    /// Returns the `(epoch, tx_id)` to stamp on a version this session creates.
+    ///
+    /// Inside a transaction the version stays pending until commit.
+    fn get_write_context(&self) -> (EpochId, TxId) {
+        if let Some(tx_id) = self.current_tx {
+            let start = self
+                .tx_manager
+                .start_epoch(tx_id)
+                .unwrap_or_else(|| self.tx_manager.current_epoch());
+            (self.store.uncommitted_stamp(start), tx_id)
+        } else {
+            (self.tx_manager.current_epoch(), TxId::SYSTEM)
+        }
+    }
+
     /// Creates a node directly (bypassing query execution).
     ///
     /// This is a low-level API for testing and direct manipulation.
     /// If a transaction is active, the node will be versioned with the transaction ID.
     pub fn create_node(&self, labels: &[&str]) -> NodeId {
-        let (epoch, tx_id) = self.get_transaction_context();
-        self.store
-            .create_node_versioned(labels, epoch, tx_id.unwrap_or(TxId::SYSTEM))
+        let (epoch, tx_id) = self.get_write_context();
+        self.store.create_node_versioned(labels, epoch, tx_id)
     }
 
     /// Creates a node with properties.
@@ -723,12 +752,12 @@ impl Session {
         labels: &[&str],
         properties: impl IntoIterator<Item = (&'a str, Value)>,
     ) -> NodeId {
-        let (epoch, tx_id) = self.get_transaction_context();
+        let (epoch, tx_id) = self.get_write_context();
         self.store.create_node_with_props_versioned(
             labels,
             properties.into_iter().map(|(k, v)| (k, v)),
             epoch,
-            tx_id.unwrap_or(TxId::SYSTEM),
+            tx_id,
         )
     }
 
@@ -742,9 +771,9 @@ impl Session {
         dst: NodeId,
         edge_type: &str,
     ) -> grafeo_common::types::EdgeId {
-        let (epoch, tx_id) = self.get_transaction_context();
+        let (epoch, tx_id) = self.get_write_context();
         self.store
-            .create_edge_versioned(src, dst, edge_type, epoch, tx_id.unwrap_or(TxId::SYSTEM))
+            .create_edge_versioned(src, dst, edge_type, epoch, tx_id)
     }
 
     // =========================================================================
